@@ -400,11 +400,16 @@ def labEp (r : Rng) : Rng × Spec.SPos :=
   let pushed := 32 + f           -- black pawn on rank 5
   let ep := 40 + f
   let b := emptyBoard.set pushed 7
-  let (r, which) := r.below 3     -- 0: left capturer, 1: right, 2: both
+  -- focus = 0: the motif "king on the rank of the two pawns, enemy rook or queen at the far end of it, one capturer, and a second,
+  -- unrelated pin against the same king" is forced instead of left to the coincidence of four independent draws
+  let (r, focus) := r.below 3
+  let (r, which0) := r.below 3     -- 0: left capturer, 1: right, 2: both
+  let which := if focus = 0 then which0 % 2 else which0
   let b := if (which = 0 ∨ which = 2) ∧ f > 0 then b.set (pushed - 1) 1 else b
   let b := if (which = 1 ∨ which = 2) ∧ f < 7 then b.set (pushed + 1) 1 else b
   -- kings: sometimes on the fifth rank (rank discovery), otherwise anywhere
-  let (r, kr) := r.below 4
+  let (r, kr0) := r.below 4
+  let kr := if focus = 0 then 0 else kr0
   let (r, ks) := r.below 64
   -- kr = 3: the king stands where the pushed pawn attacks it — the double push gave check and capturing the checker en passant is
   -- one of the ways out (the check-evasion masks of the generator must let that capture through)
@@ -422,14 +427,16 @@ def labEp (r : Rng) : Rng × Spec.SPos :=
     else if mot = 1 then lineMotif r b x 0 1     -- white king, black slider: pin / illegal capture
     else (r, b)
   -- with the king on the rank of the two pawns: often an enemy rook or queen at the far end of that rank (the classical illegal capture)
-  let (r, ra) := r.below 2
+  let (r, ra0) := r.below 2
+  let ra := if focus = 0 then 0 else ra0
   let b := if kr = 0 ∧ ra = 0 then
              (let kf := (Spec.findKing b 0) % 8
               let far := if kf < f then 39 else 32
-              if Spec.pcAt b far = 0 then putPiece b far 10 else b)
+              if Spec.pcAt b far = 0 then putPiece b far (if ks % 3 = 0 then 11 else 10) else b)
            else b
   -- a second, unrelated pin of an own piece against the same king (pin lists with more than one entry while en passant is possible)
-  let (r, cp) := r.below 2
+  let (r, cp0) := r.below 2
+  let cp := if focus = 0 then 0 else cp0
   let (r, cd) := r.pick [((0 : Int), (1 : Int)), (1, 1), (-1, 1), (0, -1), (1, -1), (-1, -1), (1, 0), (-1, 0)]
   let (r, c1) := r.below 2
   let (r, c2) := r.below 3
@@ -444,7 +451,8 @@ def labEp (r : Rng) : Rng × Spec.SPos :=
           putPiece b (Spec.sqOf f2 r2) (if diag then 9 else 10))
        else b)
     else b
-  let (r, n) := r.below 4
+  let (r, n0) := r.below 4
+  let n := if focus = 0 then n0 % 2 else n0
   let (r, b) := sprinkle r b n [9, 10, 11, 9, 10, 11, 3, 4, 5, 2, 8, 1, 7]
   (r, { board := b, side := 0, castling := 0, ep := ep, halfmove := 0, fullmove := 20 })
 
